@@ -85,6 +85,7 @@ class Interp:
         s.fptosi_log = []
         s.table_loads = []
         s.round_log = []
+        s.typeid_matches = 0
         s.undef_reads = 0
         s._lay = _LAYOUT.setdefault(id(module), {})
         s.div_by_sym = []
@@ -776,6 +777,10 @@ class Interp:
         if n.startswith('llvm.abs'):
             x = a[0]; bits = int(n.rsplit('.i', 1)[1]); v = x - (1 << bits) if x >> (bits - 1) else x; return abs(v) & ((1 << bits) - 1)
         if n.startswith('llvm.expect'): return a[0]
+        if n.startswith('llvm.eh.typeid.for'):
+            # catch clauses are not type-matched (DESIGN §2.2): the selector delivered by landingpad is 0 and every typeid is 0,
+            # i.e. the first catch clause of a landing pad takes the exception; recorded so that checks can state it
+            s.typeid_matches += 1; return 0
         if n.startswith('llvm.umul.with.overflow'):
             bits = int(n.rsplit('.i', 1)[1]); r = a[0] * a[1]; return [r & ((1 << bits) - 1), int(r >> bits != 0)]
         raise Unsupported('intrinsic ' + n)
